@@ -5,6 +5,7 @@
 import TmVerif.Sched.Displace
 import TmVerif.Sched.SearchComplete
 import TmVerif.Sched.CurInv
+import TmVerif.Sched.KFree
 
 namespace TmVerif.Sched
 
@@ -402,45 +403,81 @@ structure ProbeHyp (c0 : Cell) (p : Nat) (ap : App) : Prop where
   unplaced : ap.server = none
   notBl : ap.blacklisted = false
   noRenew : ap.renew = false
-  noGroup : ap.group = none
+  noId : ap.identity = none
   fresh : ap.evFrom = none ∧ (ap.schedOnce && ap.evicted) = false
   fits : ∃ S s anc, c0.srv? S = some s ∧ s.state = .up ∧ c0.tree.path S = some anc ∧
     srvCheck (c0.putCtx ap) s anc = true
+  /-- "an identity is free if it needs one" -/
+  idFree : ∀ g, ap.group = some g → ∃ k, KFree c0 g k
 
-theorem probe_entry {c0 : Cell} {p : Nat} {ap : App} {revq : List Nat} {st st' : PState}
+/-- `y` ended up holding an identity it did not hold at the start of the loop. -/
+def IdMovedTo (c0 c : Cell) (y : Nat) : Prop :=
+  ∃ b0 b k, c0.app? y = some b0 ∧ c.app? y = some b ∧ b.identity = some k ∧ b0.identity ≠ some k
+
+/-- `acquire_identity` of an unplaced instance that holds no identity, when its group (if any) offers
+    one: it succeeds; only the instance's `identity` field (and the group's offer) change. -/
+theorem acquire_probe {c c' : Cell} {p : Nat} {ar : App} {ch ch' : List Nat} {got : Bool}
+    (ha : c.app? p = some ar) (hnoid : ar.identity = none)
+    (hkf : ∀ g, ar.group = some g → ∃ k, KFree c g k)
+    (h : acquireIdentity c p ch = .ok (c', got, ch')) :
+    got = true ∧ ∃ ar2, c'.app? p = some ar2 ∧ ar2.stat = ar.stat ∧ ar2.server = ar.server ∧
+      ar2.evFrom = ar.evFrom ∧ ar2.evicted = ar.evicted ∧
+      (∀ y, y ≠ p → c'.app? y = c.app? y) := by
+  have hh := h
+  simp only [acquireIdentity, bind_ok, orAbort_ok] at h
+  obtain ⟨a, ha1, h⟩ := h
+  rw [ha] at ha1; cases ha1
+  split at h
+  · simp only [pure_ok, Prod.mk.injEq] at h
+    obtain ⟨rfl, rfl, _⟩ := h
+    exact ⟨rfl, ar, ha, rfl, rfl, rfl, rfl, fun _ _ => rfl⟩
+  · rename_i g hg
+    rw [hnoid] at h
+    simp only [Option.isSome_none, Bool.false_eq_true, ↓reduceIte, bind_ok, orAbort_ok] at h
+    obtain ⟨grp, hgrp, h⟩ := h
+    obtain ⟨k, grp', hgrp', hk⟩ := hkf g hg
+    rw [hgrp] at hgrp'; cases hgrp'
+    have hne : grp.avail.isEmpty = false := by
+      cases hav : grp.avail with
+      | nil => rw [hav] at hk; cases hk
+      | cons _ _ => rfl
+    rw [hne] at h
+    simp only [Bool.false_eq_true, ↓reduceIte] at h
+    split at h
+    · simp only [throw_ne_ok] at h
+    · rename_i k' rest
+      split at h
+      · simp only [throw_bind, throw_ne_ok] at h
+      · simp only [pure_ok, Prod.mk.injEq] at h
+        obtain ⟨rfl, rfl, _⟩ := h
+        have hpid : ar.id = p := app?_id ha
+        refine ⟨rfl, { ar with identity := some k' }, ?_, rfl, rfl, rfl, rfl, ?_⟩
+        · generalize hr : ({ ar with identity := some k' } : App) = r
+          have hid' : r.id = p := by rw [← hr]; exact hpid
+          have := app?_setApp_self (c := c.setGrp { grp with avail := grp.avail.filter (· ≠ k') })
+            (a := ar) (a' := r) (by rw [hid']; exact ha)
+          rw [hid'] at this; exact this
+        · intro y hy
+          rw [app?_setApp]
+          show Option.map _ (c.app? y) = c.app? y
+          cases hq : c.app? y with
+          | none => rfl
+          | some b =>
+            simp only [Option.map_some, Option.some.injEq]
+            have : b.id ≠ ar.id := by rw [app?_id hq, hpid]; exact hy
+            simp [this]
+
+/-- The probe's turn from `afterAcquire` on: nothing to restore, not a used-up schedule-once
+    instance, the tracker does not veto it, the fitting server still fits, `Cell.put` is complete. -/
+theorem probe_tail {c0 : Cell} {p : Nat} {ap ar : App} {revq : List Nat} {st st' : PState}
+    {restore : Option (Nat × Option Int)}
     (h0 : AffAll c0) (hagg : AggOk c0) (hcur : CurOk c0.tree) (hh : ProbeHyp c0 p ap)
-    (hreach : Reach c0 st.cell) (hclean : Clean c0 st.cell) (hsame : st.cell.app? p = some ap)
+    (hreach1 : Reach c0 st.cell) (hclean1 : Clean c0 st.cell) (hc1 : st.cell.app? p = some ar)
+    (arstat : ar.stat = ap.stat) (arev : ar.evFrom = none) (arso : (ar.schedOnce && ar.evicted) = false)
     (htr : TrackerOk c0 (c0.allocInfo ap.alloc).label st.tracker)
-    (h : placeOne revq st (p, false) = .ok st') :
+    (h : afterAcquire revq st p restore = .ok st') :
     ∃ a' sid', st'.cell.app? p = some a' ∧ a'.server = some sid' := by
   obtain ⟨S, s0, anc0, hs0, hup0, hanc0, hfit0⟩ := hh.fits
-  have hpid : ap.id = p := app?_id hh.app
-  simp only [placeOne, bind_ok, orAbort_ok] at h
-  obtain ⟨a1, ha1, h⟩ := h
-  rw [hsame] at ha1; cases ha1
-  simp only [hh.notBl, Bool.false_eq_true, ↓reduceIte, bind_ok, orAbort_ok] at h
-  obtain ⟨⟨c1, restore⟩, hren, a1, ha1, h⟩ := h
-  obtain ⟨rfl, rfl⟩ := renewStep_noop hh.noRenew hren
-  simp only at ha1 h
-  rw [hsame] at ha1; cases ha1
-  generalize har : ({ ap with renew := false } : App) = ar at h
-  have arid : ar.id = p := by rw [← har]; exact hpid
-  have arstat : ar.stat = ap.stat := by rw [← har]; rfl
-  have arsv : ar.server = none := by rw [← har]; exact hh.unplaced
-  have argrp : ar.group = none := by rw [← har]; exact hh.noGroup
-  have arev : ar.evFrom = none := by rw [← har]; exact hh.fresh.1
-  have arso : (ar.schedOnce && ar.evicted) = false := by rw [← har]; exact hh.fresh.2
-  have ardem : ar.demand = ap.demand := by rw [← har]
-  have hc1 : (st.cell.setApp ar).app? p = some ar := by
-    have := app?_setApp_self (c := st.cell) (a := ap) (a' := ar) (by rw [arid]; exact hsame)
-    rw [arid] at this; exact this
-  rw [hh.unplaced] at h
-  simp only [bind_ok] at h
-  obtain ⟨⟨c2, got, ch⟩, hacq, h⟩ := h
-  have hhas : ar.hasIdentity = true := by simp [App.hasIdentity, argrp]
-  obtain ⟨rfl, rfl⟩ := acquire_has hc1 hhas hacq
-  simp only [Bool.not_true, Bool.false_eq_true, ↓reduceIte] at h
-  -- afterAcquire: nothing to restore, not a used-up schedule-once instance, tracker has no record
   simp only [afterAcquire, bind_ok] at h
   obtain ⟨⟨c3, done⟩, hrest, h⟩ := h
   simp only [restoreEvicted, bind_ok, orAbort_ok] at hrest
@@ -454,15 +491,11 @@ theorem probe_entry {c0 : Cell} {p : Nat} {ap : App} {revq : List Nat} {st st' :
   rw [hc1] at ha2; cases ha2
   rw [arso] at h
   simp only [Bool.false_eq_true, ↓reduceIte] at h
-  -- the state at the attempt
-  have hreach1 : Reach c0 (st.cell.setApp ar) := by
-    rw [← har]
-    exact hreach.trans (Reach.single ⟨_, LPrim.setRenew (b := false) (by rw [hpid]; exact hsame)⟩)
   have hstat1 := sameStatic_reach hreach1
-  have hkey : (st.cell.setApp ar).tkey ar = c0.tkey ap := tkey_static hstat1 arstat
-  have hfeas : trackerFeasible st.tracker ((st.cell.setApp ar).tkey ar) ar.demand = true := by
+  have hkey : st.cell.tkey ar = c0.tkey ap := tkey_static hstat1 arstat
+  have hfeas : trackerFeasible st.tracker (st.cell.tkey ar) ar.demand = true := by
     unfold trackerFeasible
-    cases hf : st.tracker.find? (fun q => q.1 = (st.cell.setApp ar).tkey ar) with
+    cases hf : st.tracker.find? (fun q => q.1 = st.cell.tkey ar) with
     | none => rfl
     | some kv =>
       have hm := List.mem_of_find?_eq_some hf
@@ -473,35 +506,84 @@ theorem probe_entry {c0 : Cell} {p : Nat} {ap : App} {revq : List Nat} {st st' :
       | true =>
         exfalso
         have edem : ar.demand = ap.demand := congrArg AppStat.demand arstat
-        obtain ⟨S, s0, anc0, hs0, hup0, hanc0, hfit0⟩ := hh.fits
         exact htr kv hm ap (by rw [hk, hkey]) rfl (by rw [← edem]; exact hge) S s0 anc0 hs0 hup0 hanc0 hfit0
   rw [hfeas] at h
   simp only [Bool.not_true, Bool.false_eq_true, ↓reduceIte] at h
-  -- the fitting server still fits
-  have hclean1 : Clean c0 (st.cell.setApp ar) := by
-    intro q b0 b hb0 hb
-    rw [app?_setApp] at hb
-    cases hq : st.cell.app? q with
-    | none => rw [hq] at hb; cases hb
-    | some bq =>
-      rw [hq] at hb
-      simp only [Option.map_some, Option.some.injEq] at hb
-      have hcl := hclean q b0 bq hb0 hq
-      rw [← hb]
-      split
-      · exact Or.inr arsv
-      · exact hcl
   obtain ⟨s1, hs1, ests⟩ := srv?_stat_to hstat1 hs0
   have hup1 : s1.state = .up := by
     have : s1.state = s0.state := congrArg SrvStat.state ests
     rw [this]; exact hup0
   have hall1 := affAll_reach h0 hreach1
-  have hname : S ∈ (st.cell.setApp ar).tree.names :=
+  have hname : S ∈ st.cell.tree.names :=
     leaves_sub_names _ _ ((hall1.tree.leaves S).mpr ⟨s1, srv?_mem hs1, srv?_id hs1⟩)
   obtain ⟨anc1, hanc1⟩ := path_exists _ S hname
   have hfit1 := fits_mono (y := p) h0 hreach1 hclean1 hh.app hc1 hs0 hs1 hanc0 hanc1 hfit0
-  exact tryPlace_places (st := { st with cell := st.cell.setApp ar, choices := _ }) hall1 (aggOk_reach h0 hagg hreach1)
-    (curOk_reach hcur hreach1) hc1 hs1 hup1 hanc1 hfit1 h
+  exact tryPlace_places hall1 (aggOk_reach h0 hagg hreach1) (curOk_reach hcur hreach1) hc1 hs1 hup1 hanc1 hfit1 h
+
+theorem probe_entry {c0 : Cell} {p : Nat} {ap : App} {revq : List Nat} {st st' : PState}
+    (h0 : AffAll c0) (hagg : AggOk c0) (hcur : CurOk c0.tree) (hh : ProbeHyp c0 p ap)
+    (hreach : Reach c0 st.cell) (hclean : Clean c0 st.cell) (hsame : st.cell.app? p = some ap)
+    (htr : TrackerOk c0 (c0.allocInfo ap.alloc).label st.tracker)
+    (hkf : ∀ g, ap.group = some g → ∃ k, KFree st.cell g k)
+    (h : placeOne revq st (p, false) = .ok st') :
+    ∃ a' sid', st'.cell.app? p = some a' ∧ a'.server = some sid' := by
+  have hpid : ap.id = p := app?_id hh.app
+  simp only [placeOne, bind_ok, orAbort_ok] at h
+  obtain ⟨a1, ha1, h⟩ := h
+  rw [hsame] at ha1; cases ha1
+  simp only [hh.notBl, Bool.false_eq_true, ↓reduceIte, bind_ok, orAbort_ok] at h
+  obtain ⟨⟨c1, restore⟩, hren, a1, ha1, h⟩ := h
+  obtain ⟨rfl, rfl⟩ := renewStep_noop hh.noRenew hren
+  simp only at ha1 h
+  rw [hsame] at ha1; cases ha1
+  generalize har : ({ ap with renew := false } : App) = ar at h
+  have arid : ar.id = p := by rw [← har]; exact hpid
+  have arstat : ar.stat = ap.stat := by rw [← har]; rfl
+  have arsv : ar.server = none := by rw [← har]; exact hh.unplaced
+  have arnoid : ar.identity = none := by rw [← har]; exact hh.noId
+  have argrp : ar.group = ap.group := by rw [← har]
+  have arev : ar.evFrom = none := by rw [← har]; exact hh.fresh.1
+  have arevd : ar.evicted = ap.evicted := by rw [← har]
+  have arso : (ar.schedOnce && ar.evicted) = false := by rw [← har]; exact hh.fresh.2
+  have hc1 : (st.cell.setApp ar).app? p = some ar := by
+    have := app?_setApp_self (c := st.cell) (a := ap) (a' := ar) (by rw [arid]; exact hsame)
+    rw [arid] at this; exact this
+  rw [hh.unplaced] at h
+  simp only [bind_ok] at h
+  obtain ⟨⟨c2, got, ch⟩, hacq, h⟩ := h
+  have hkf1 : ∀ g, ar.group = some g → ∃ k, KFree (st.cell.setApp ar) g k := by
+    intro g hg
+    rw [argrp] at hg
+    exact hkf g hg
+  obtain ⟨rfl, ar2, hc2, ar2stat, ar2sv, ar2ev, ar2evd, hothers⟩ := acquire_probe hc1 arnoid hkf1 hacq
+  simp only [Bool.not_true, Bool.false_eq_true, ↓reduceIte] at h
+  -- the state after the identity was taken
+  have hreach1 : Reach c0 (st.cell.setApp ar) := by
+    rw [← har]
+    exact hreach.trans (Reach.single ⟨_, LPrim.setRenew (b := false) (by rw [hpid]; exact hsame)⟩)
+  have hreach2 : Reach c0 c2 := hreach1.trans (Reach.single ⟨_, LPrim.acquire hacq⟩)
+  have hclean2 : Clean c0 c2 := by
+    intro q b0 b hb0 hb
+    by_cases hq : q = p
+    · subst hq
+      rw [hc2] at hb; cases hb
+      exact Or.inr (by rw [ar2sv]; exact arsv)
+    · rw [hothers q hq, app?_setApp] at hb
+      cases hq' : st.cell.app? q with
+      | none => rw [hq'] at hb; cases hb
+      | some bq =>
+        rw [hq'] at hb
+        simp only [Option.map_some, Option.some.injEq] at hb
+        have hcl := hclean q b0 bq hb0 hq'
+        rw [← hb]
+        split
+        · exact Or.inr arsv
+        · exact hcl
+  have ar2so : (ar2.schedOnce && ar2.evicted) = false := by
+    have e1 : ar2.schedOnce = ar.schedOnce := congrArg AppStat.schedOnce ar2stat
+    rw [e1, ar2evd]; exact arso
+  exact probe_tail (st := { st with cell := c2, choices := ch }) h0 hagg hcur hh hreach2 hclean2 hc2
+    (ar2stat.trans arstat) (by rw [ar2ev]; exact arev) ar2so htr h
 
 /-! ### the loop -/
 
@@ -509,7 +591,8 @@ theorem probe_entry {c0 : Cell} {p : Nat} {ap : App} {revq : List Nat} {st st' :
 def ProbeInv (c0 : Cell) (p : Nat) (ap : App) (done : List Nat) (st : PState) : Prop :=
   (p ∈ done ∧ ∃ a' sid', st.cell.app? p = some a' ∧ a'.server = some sid') ∨
   (p ∉ done ∧ Reach c0 st.cell ∧ Clean c0 st.cell ∧ st.cell.app? p = some ap ∧
-    TrackerOk c0 (c0.allocInfo ap.alloc).label st.tracker)
+    TrackerOk c0 (c0.allocInfo ap.alloc).label st.tracker ∧
+    ∀ g k, ap.group = some g → KFree c0 g k → KFree st.cell g k)
 
 theorem probe_loop {c0 : Cell} {p : Nat} {ap : App} {full : List (Nat × Bool)}
     (h0 : AffAll c0) (hagg : AggOk c0) (hcur : CurOk c0.tree) (hh : ProbeHyp c0 p ap)
@@ -517,7 +600,9 @@ theorem probe_loop {c0 : Cell} {p : Nat} {ap : App} {full : List (Nat × Bool)}
     (hlbl : ∀ y, AheadOf p (full.map (·.1)) y → ∀ ay, c0.app? y = some ay →
       (c0.allocInfo ay.alloc).label = (c0.allocInfo ap.alloc).label)
     (stF : PState)
-    (hnomove : ∀ y, AheadOf p (full.map (·.1)) y → ¬ MovedTo c0 stF.cell y) :
+    (hnomove : ∀ y, AheadOf p (full.map (·.1)) y → ¬ MovedTo c0 stF.cell y)
+    (hinvid : InvId c0)
+    (hidq : ∀ g, ap.group = some g → ∀ y, AheadOf p (full.map (·.1)) y → ¬ IdMovedTo c0 stF.cell y) :
     ∀ (rest : List (Nat × Bool)) (done : List (Nat × Bool)) (st : PState), full = done ++ rest →
       rest.foldlM (placeOne (full.map (·.1)).reverse) st = .ok stF →
       ProbeInv c0 p ap (done.map (·.1)) st → ProbeInv c0 p ap (full.map (·.1)) stF := by
@@ -555,7 +640,7 @@ theorem probe_loop {c0 : Cell} {p : Nat} {ap : App} {full : List (Nat × Bool)}
     have hrestloop : Loop (full.map (·.1)).reverse rest st1.cell stF.cell := placeLoop rest st1 stF h2
     apply ih (done ++ [q]) st1 hfull' h2
     simp only [List.map_append, List.map_cons, List.map_nil]
-    rcases hinv with ⟨hpd, a', sid', ha', hsv'⟩ | ⟨hpd, hreach, hclean, hsame, htr⟩
+    rcases hinv with ⟨hpd, a', sid', ha', hsv'⟩ | ⟨hpd, hreach, hclean, hsame, htr, hkfree⟩
     · left
       have heq : st1.cell.app? p = st.cell.app? p :=
         entry_untouched hchain (by rw [hid0]; intro e; exact hqdone (e ▸ hpd)) (hdone_not_after p hpd)
@@ -581,7 +666,8 @@ theorem probe_loop {c0 : Cell} {p : Nat} {ap : App} {full : List (Nat × Bool)}
                 · exact iht hn.2 h1' h2' e
           exact this full hnd hq_mem hp hqp
         rw [hq] at h1
-        obtain ⟨a', sid', ha', hsv'⟩ := probe_entry h0 hagg hcur hh hreach hclean hsame htr h1
+        obtain ⟨a', sid', ha', hsv'⟩ := probe_entry h0 hagg hcur hh hreach hclean hsame htr
+          (fun g hg => by obtain ⟨k, hk⟩ := hh.idFree g hg; exact ⟨k, hkfree g k hg hk⟩) h1
         exact ⟨by rw [hqp]; simp, a', sid', ha', hsv'⟩
       · -- an entry ahead of the probe: it did not move (final state, hence already now)
         right
@@ -611,7 +697,7 @@ theorem probe_loop {c0 : Cell} {p : Nat} {ap : App} {full : List (Nat × Bool)}
               · exact Or.inl (e.trans e')
               · exact Or.inr (e.trans e')
             · exact Or.inr e
-        refine ⟨hpd', hreach1, ?_, ?_, ?_⟩
+        refine ⟨hpd', hreach1, ?_, ?_, ?_, ?_⟩
         · intro y d0 d1 hd0 hd1
           by_cases hy : y = q.1
           · subst hy
@@ -662,20 +748,53 @@ theorem probe_loop {c0 : Cell} {p : Nat} {ap : App} {full : List (Nat × Bool)}
             have := put_complete hallT (aggOk_reach h0 hagg hreachT) (curOk_reach hcur hreachT) ha2 hs1 hup1 hanc1
               hfitT hput
             cases this
+        · -- an identity of the probe's group offered at the start is offered again after the entry's turn:
+          -- otherwise the entry's instance would hold an identity it did not hold before
+          intro g k hg hk0
+          have hkst := hkfree g k hg hk0
+          obtain ⟨grp0, hgrp0, hm0⟩ := hk0
+          have hlt0 : k < grp0.count := hinvid.availRange grp0 (grp?_mem hgrp0) k hm0
+          have hlt : ∀ grp, st.cell.grp? g = some grp → k < grp.count := by
+            intro grp hgrp
+            have hs := hstat.grp g
+            rw [hgrp, hgrp0] at hs
+            simp only [Option.map_some, Option.some.injEq] at hs
+            rw [hs]; exact hlt0
+          have hko : KOk st1.cell g k a0.id := kok_lreach hchain hlt (Or.inl hkst)
+          rcases hko with hfree | ⟨b, hb, hbg, hbi⟩
+          · exact hfree
+          · exfalso
+            rw [hid0] at hb
+            rw [hb1] at hb; cases hb
+            apply hidq g hg q.1 hahead
+            refine ⟨b0, b1, k, hb0, by rw [hstable]; exact hb1, hbi, ?_⟩
+            intro hb0i
+            have eg : b0.group = b1.group := by
+              have e1 : b1.stat = a0.stat := by
+                obtain ⟨b1', hb1', e⟩ := app?_stat_to (sameStatic_lreach hchain) ha0
+                rw [hb1] at hb1'; cases hb1'; exact e
+              have e2 : a0.stat = b0.stat := est0
+              exact (congrArg AppStat.group (e1.trans e2)).symm
+            have hgid : grp0.id = g := grp?_id hgrp0
+            exact hinvid.disj b0 (app?_mem hb0) grp0 (grp?_mem hgrp0) k (by rw [eg, hbg, hgid]) hb0i hm0
 
-/-- **C02, one `_find_placements` call.**  A pending instance `p` (no identity group, not blacklisted,
-    not over its cap) for which some up server passes the `Server.put` checks when the loop starts is
-    placed by the loop, provided no instance ahead of it in the queue ends on a server it was not on
-    before (the cell is quiescent for the instances ahead) and the instances ahead belong to allocations
-    of the probe's partition (one queue = one partition).  The feasibility tracker is covered: every
-    record it holds is sound (`TrackerOk`), so it never skips the probe. -/
+/-- **C02, one `_find_placements` call.**  A pending instance `p` (not blacklisted, not over its cap,
+    holding no identity; if it belongs to an identity group, the group offers an identity) for which
+    some up server passes the `Server.put` checks when the loop starts is placed by the loop, provided
+    no instance ahead of it in the queue ends on a server it was not on before or — when the probe needs
+    an identity — holding an identity it did not hold before (the cell is quiescent for the instances
+    ahead), and the instances ahead belong to allocations of the probe's partition (one queue = one
+    partition).  The feasibility tracker is covered: every record it holds is sound (`TrackerOk`), so
+    it never skips the probe; an identity offered at the start is still offered at the probe's turn. -/
 theorem findPlacements_probe {c0 c' : Cell} {p : Nat} {ap : App} {queue : List (Nat × Bool)} {ch ch' : List Nat}
     (h0 : AffAll c0) (hagg : AggOk c0) (hcur : CurOk c0.tree) (hh : ProbeHyp c0 p ap)
     (hnd : (queue.map (·.1)).Nodup) (hp : (p, false) ∈ queue)
     (hlbl : ∀ y, AheadOf p (queue.map (·.1)) y → ∀ ay, c0.app? y = some ay →
       (c0.allocInfo ay.alloc).label = (c0.allocInfo ap.alloc).label)
     (h : findPlacements c0 queue ch = .ok (c', ch'))
-    (hnomove : ∀ y, AheadOf p (queue.map (·.1)) y → ¬ MovedTo c0 c' y) :
+    (hnomove : ∀ y, AheadOf p (queue.map (·.1)) y → ¬ MovedTo c0 c' y)
+    (hinvid : InvId c0)
+    (hidq : ∀ g, ap.group = some g → ∀ y, AheadOf p (queue.map (·.1)) y → ¬ IdMovedTo c0 c' y) :
     ∃ a' sid', c'.app? p = some a' ∧ a'.server = some sid' := by
   simp only [findPlacements, bind_ok, pure_ok, Prod.mk.injEq] at h
   obtain ⟨stF, hfold, rfl, _⟩ := h
@@ -693,8 +812,8 @@ theorem findPlacements_probe {c0 c' : Cell} {p : Nat} {ap : App} {queue : List (
     cases ap; simp_all
   have hh' : ProbeHyp (clearGhost c0) p ap := by
     obtain ⟨S, s, anc, f1, f2, f3, f4⟩ := hh.fits
-    refine ⟨by rw [hlook, hh.app]; simp [hapeq], hh.unplaced, hh.notBl, hh.noRenew, hh.noGroup, hh.fresh,
-      S, s, anc, f1, f2, f3, f4⟩
+    exact ⟨by rw [hlook, hh.app]; simp [hapeq], hh.unplaced, hh.notBl, hh.noRenew, hh.noId, hh.fresh,
+      ⟨S, s, anc, f1, f2, f3, f4⟩, fun g hg => hh.idFree g hg⟩
   have hres := probe_loop (c0 := clearGhost c0) h0' hagg' hcur' hh' hnd hp
     (by
       intro y hy ay hay
@@ -718,9 +837,21 @@ theorem findPlacements_probe {c0 c' : Cell} {p : Nat} {ap : App} {queue : List (
         rw [hy0] at hb0
         simp only [Option.map_some, Option.some.injEq] at hb0
         exact ⟨d0, b, t, hy0, hb, hbt, by rw [← hb0] at hne; exact hne⟩)
+    (invId_reach hinvid hclr)
+    (by
+      intro g hg y hy hm
+      apply hidq g hg y hy
+      obtain ⟨b0, b, k, hb0, hb, hbk, hne⟩ := hm
+      rw [hlook] at hb0
+      cases hy0 : c0.app? y with
+      | none => rw [hy0] at hb0; cases hb0
+      | some d0 =>
+        rw [hy0] at hb0
+        simp only [Option.map_some, Option.some.injEq] at hb0
+        exact ⟨d0, b, k, hy0, hb, hbk, by rw [← hb0] at hne; exact hne⟩)
     queue [] { cell := clearGhost c0, tracker := [], choices := ch } (by simp) hfold
     (Or.inr ⟨by simp, Reach.refl, fun q b0 b hb0 hb => by rw [hb0] at hb; cases hb; exact Or.inl rfl,
-      hh'.app, fun kv hkv => by cases hkv⟩)
+      hh'.app, (fun kv hkv => by cases hkv), (fun _ _ _ hk => hk)⟩)
   have hpin : p ∈ queue.map (·.1) := List.mem_map_of_mem (f := (·.1)) hp
   rcases hres with ⟨_, a', sid', ha', hsv'⟩ | ⟨hnot, _⟩
   · exact ⟨a', sid', ha', hsv'⟩
@@ -746,7 +877,7 @@ theorem preOk_servers {c c1 : Cell} (h : LReach PreOk c c1) :
 
 theorem preOk_unplaced_step {c c' : Cell} {lab : Lab} {y : Nat} {ay : App} (hcap : InvCap c)
     (hok : PreOk c lab) (hp : LPrim lab c c') (hay : c.app? y = some ay) (hnone : ay.server = none)
-    (hgrp : ay.group = none) : c'.app? y = c.app? y := by
+    (hnoid : ay.identity = none) : c'.app? y = c.app? y := by
   by_cases ht : lab.target = some y
   · cases hp with
     | @remove _ _ sid aid h =>
@@ -765,19 +896,21 @@ theorem preOk_unplaced_step {c c' : Cell} {lab : Lab} {y : Nat} {ay : App} (hcap
       simp only [releaseIdentity, bind_ok, orAbort_ok] at h
       obtain ⟨a, ha, h⟩ := h
       rw [hay] at ha; cases ha
-      rw [hgrp] at h
-      simp only [pure_ok] at h
-      subst h; rfl
+      rw [hnoid] at h
+      split at h
+      · rename_i hx; cases hx
+      · simp only [pure_ok] at h
+        subst h; rfl
     | @dropDangling _ a1 sid ha1 hon _ =>
       exfalso
       have e : a1.id = y := by simpa [Lab.target] using ht
       rw [e, hay] at ha1; cases ha1
       rw [hnone] at hon; cases hon
-    | @forgetIdentity _ a1 k g grp ha1 _ hg _ _ =>
+    | @forgetIdentity _ a1 k g grp ha1 hk1 hg _ _ =>
       exfalso
       have e : a1.id = y := by simpa [Lab.target] using ht
       rw [e, hay] at ha1; cases ha1
-      rw [hgrp] at hg; cases hg
+      rw [hnoid] at hk1; cases hk1
     | put _ => simp only [PreOk] at hok
     | acquire _ => simp only [PreOk] at hok
     | appMeta _ _ _ _ _ _ _ _ _ _ _ _ _ _ _ _ _ _ => simp only [PreOk] at hok
@@ -789,12 +922,12 @@ theorem preOk_unplaced_step {c c' : Cell} {lab : Lab} {y : Nat} {ay : App} (hcap
     intro e; subst e; simp only [PreOk] at hok
 
 theorem preOk_unplaced {c c1 : Cell} {y : Nat} {ay : App} (hcap : InvCap c) (h : LReach PreOk c c1)
-    (hay : c.app? y = some ay) (hnone : ay.server = none) (hgrp : ay.group = none) : c1.app? y = c.app? y := by
+    (hay : c.app? y = some ay) (hnone : ay.server = none) (hnoid : ay.identity = none) : c1.app? y = c.app? y := by
   induction h with
   | refl => rfl
   | @step c' c'' lab r p hp ih =>
     rw [← ih]
-    exact preOk_unplaced_step (invCap_lreach hcap r) hp p (by rw [ih]; exact hay) hnone hgrp
+    exact preOk_unplaced_step (invCap_lreach hcap r) hp p (by rw [ih]; exact hay) hnone hnoid
 
 /-! ### partitions scheduled before the probe's -/
 
@@ -838,5 +971,84 @@ theorem clean_of_not_moved {c0 c : Cell} (h : ∀ y, ¬ MovedTo c0 c y) : Clean 
     by_cases e : b0.server = some t
     · exact e.symm
     · exact absurd ⟨b0, b, t, hb0, hb, hs, e⟩ (h y)
+
+/-! ### an offered identity stays offered across queues whose instances take no new identity -/
+
+/-- One queue: every identity `k` of group `g` offered in the base state `cB` (and now) is offered
+    again after the loop, if no instance of the queue ends up holding an identity it did not hold in `cB`. -/
+theorem loop_kfree {revq : List Nat} {qs : List (Nat × Bool)} {cB c c' : Cell} {g k : Nat}
+    (hl : Loop revq qs c c') (hok : AfterOk revq qs) (hnd : (qs.map (·.1)).Nodup)
+    (hinvB : InvId cB) (hstat : SameStatic cB c) (hkB : KFree cB g k)
+    (hq : ∀ y ∈ qs.map (·.1), ¬ IdMovedTo cB c' y) (hk : KFree c g k) : KFree c' g k := by
+  induction hl with
+  | nil => exact hk
+  | @cons q rest c c1 c2 a0 ha0 hchain hrest _ ih =>
+    have hqrest : q.1 ∉ rest.map (·.1) := by
+      simp only [List.map_cons, List.nodup_cons] at hnd; exact hnd.1
+    have hnd' : (rest.map (·.1)).Nodup := by
+      simp only [List.map_cons, List.nodup_cons] at hnd; exact hnd.2
+    have hstat1 : SameStatic cB c1 := hstat.trans (sameStatic_lreach hchain)
+    apply ih hok.2 hnd' hstat1 (fun y hy => hq y (by simp [hy]))
+    obtain ⟨grp0, hgrp0, hm0⟩ := hkB
+    have hlt0 : k < grp0.count := hinvB.availRange grp0 (grp?_mem hgrp0) k hm0
+    have hlt : ∀ grp, c.grp? g = some grp → k < grp.count := by
+      intro grp hgrp
+      have hs := hstat.grp g
+      rw [hgrp, hgrp0] at hs
+      simp only [Option.map_some, Option.some.injEq] at hs
+      rw [hs]; exact hlt0
+    have hko : KOk c1 g k a0.id := kok_lreach hchain hlt (Or.inl hk)
+    rcases hko with hfree | ⟨b, hb, hbg, hbi⟩
+    · exact hfree
+    · exfalso
+      have hid0 : a0.id = q.1 := app?_id ha0
+      rw [hid0] at hb
+      have hstable : c2.app? q.1 = c1.app? q.1 := loop_stable hrest hok.2 hqrest
+      obtain ⟨b0, hb0, est0⟩ := app?_stat_of hstat ha0
+      apply hq q.1 (by simp)
+      refine ⟨b0, b, k, hb0, by rw [hstable]; exact hb, hbi, ?_⟩
+      intro hb0i
+      have eg : b0.group = b.group := by
+        obtain ⟨b1', hb1', e⟩ := app?_stat_to (sameStatic_lreach hchain) ha0
+        rw [hb] at hb1'; cases hb1'
+        exact (congrArg AppStat.group (e.trans est0)).symm
+      have hgid : grp0.id = g := grp?_id hgrp0
+      exact hinvB.disj b0 (app?_mem hb0) grp0 (grp?_mem hgrp0) k (by rw [eg, hbg, hgid]) hb0i hm0
+
+/-- Whole partitions: an identity offered before is offered after, if no instance of their queues
+    ends up holding an identity it did not hold before (queues duplicate-free and pairwise disjoint). -/
+theorem cycle_kfree {qss : List (List (Nat × Bool))} {c c' : Cell} {g k : Nat}
+    (hcy : Cycle qss c c') (hinv : InvId c)
+    (hnd : ∀ q ∈ qss, (q.map (·.1)).Nodup)
+    (hpw : qss.Pairwise (fun a b => ∀ y ∈ a.map (·.1), y ∉ b.map (·.1)))
+    (hq : ∀ q ∈ qss, ∀ y ∈ q.map (·.1), ¬ IdMovedTo c c' y) (hk : KFree c g k) : KFree c' g k := by
+  induction hcy with
+  | nil => exact hk
+  | @cons q qs c c1 c2 hl hrest ih =>
+    have hpw' := List.pairwise_cons.mp hpw
+    have hclr : Reach c (clearGhost c) := Reach.single ⟨_, LPrim.clearEv⟩
+    have hr1 : Reach c c1 := hclr.trans hl.toReach
+    have hone : Cycle [q] c c1 := .cons hl .nil
+    -- the queue `q`
+    have hk1 : KFree c1 g k := by
+      refine loop_kfree hl (afterOk_of_nodup q (hnd q List.mem_cons_self) [] q rfl) (hnd q List.mem_cons_self)
+        hinv (sameStatic_reach hclr) hk ?_ (kfree_clearGhost hk)
+      intro y hy hm
+      apply hq q List.mem_cons_self y hy
+      obtain ⟨b0, b, k', hb0, hb, hbk, hne⟩ := hm
+      obtain ⟨b2, hb2, _⟩ := app?_stat_to (sameStatic_reach hrest.toReach) hb
+      obtain ⟨b1, hb1, _, e, _⟩ := cycle_untouched hrest (fun q' hq' => hpw'.1 q' hq' y hy) b2 hb2
+      rw [hb] at hb1; cases hb1
+      exact ⟨b0, b2, k', hb0, hb2, by rw [e]; exact hbk, hne⟩
+    -- the remaining queues, from `c1`
+    apply ih (invId_reach hinv hr1) (fun q' hq' => hnd q' (List.mem_cons_of_mem _ hq')) hpw'.2 ?_ hk1
+    intro q' hq' y hy hm
+    apply hq q' (List.mem_cons_of_mem _ hq') y hy
+    obtain ⟨b1, b, k', hb1, hb, hbk, hne⟩ := hm
+    obtain ⟨b0, hb0, _, e, _⟩ := cycle_untouched hone
+      (fun q'' hq'' => by
+        rw [List.mem_singleton] at hq''; subst hq''
+        exact fun hyq => hpw'.1 q' hq' y hyq hy) b1 hb1
+    exact ⟨b0, b, k', hb0, hb, hbk, by rw [← e]; exact hne⟩
 
 end TmVerif.Sched
